@@ -661,6 +661,9 @@ def run_program(cx, group, program):
         if e.where == "read":
             return "read:exception:%s:%s:%s" % (tname, fam, cx.eol), msg
         if e.where == "cat":
+            if isinstance(e.exc, AssertionError) and "lazybnpdataclass" in msg and "bnpdataclass.bnpdataclass" in msg:
+                # an operand that is itself the result of a non-lazy concatenation, concatenated with a lazy table
+                return "concat:eager-and-lazy-operands:exception-in-cat:AssertionError", msg
             return "%s:exception-in-cat:%s" % (group, tname), msg
         rep = replaced_fields(program)
         if rep and e.where in ("write", "replace"):
